@@ -41,7 +41,13 @@ func planFor(prop, tier string) (tierPlan, bool) {
 	q := tier != "thorough"
 	switch prop {
 	case "C14":
-		return tierPlan{batches: []batch{{engine: "wfault"}}, level: "fault_enumeration"}, true
+		// enumeration of fault positions on a fresh instance (wfault), plus the same clauses for
+		// faulted calls inside histories on a long-used instance (hist) and for faulted calls of
+		// concurrent workers on a shared instance (sched, plain build: results only)
+		if q {
+			return tierPlan{batches: []batch{{engine: "wfault"}, {engine: "hist", runs: 80000}, {engine: "sched", runs: 8000}}, level: "fault_enumeration"}, true
+		}
+		return tierPlan{batches: []batch{{engine: "wfault"}, {engine: "hist", runs: 800000}, {engine: "sched", runs: 200000}}, level: "fault_enumeration"}, true
 	case "C06":
 		if q {
 			return tierPlan{batches: []batch{{engine: "hist", runs: 160000}}, level: "exploration"}, true
@@ -317,7 +323,7 @@ func cmdDrive(args []string) {
 	switch *prop {
 	case "C14":
 		must = []string{"fired.short+err", "fired.zero+err", "fired.full+err", "fired.always", "fired.transient", "fired.flaky", "fired.short+nil", "probe.fault_beyond_4096", "probe.fault_at_offset_0", "probe.fault_on_last_sink_call", "control_runs",
-			"errkind.temporary", "errkind.timeout", "errkind.shortwrite", "errkind.eof", "errkind.closedpipe", "errkind.epipe", "errkind.deadline"}
+			"hist.c14_faulted_ops_judged", "sched.c14_ops_judged", "sched.c14_faults_fired", "probe.sweep_faulted", "errkind.temporary", "errkind.timeout", "errkind.shortwrite", "errkind.eof", "errkind.closedpipe", "errkind.epipe", "errkind.deadline"}
 	case "C06":
 		must = []string{"probe.rerenders", "probe.stale_tree_renders", "probe.ops_after_failed_op", "probe.same_doc_back_to_back", "probe.renders_by_other_renderer", "probe.renders_after_other_renderer", "op.Convert", "op.PkgConvert", "op.Parse", "op.Render", "op.ParseRender"}
 	case "C15":
@@ -453,7 +459,7 @@ func writeEvidence(verifDir, prop, tier string, seed uint64, plan tierPlan, st *
 	cov["stub_components"] = []string{"destination writer (fault-injecting sink; writer stacks W1/W2/W3)", "delegating parser.Context / parser.IDs / text.Reader wrappers (yield points, transparent)", "scheduler (seeded policies or explicit decision list) releasing real goroutines one at a time"}
 	switch prop {
 	case "C14":
-		cov["rule"] = "fault_enumeration: for every (configuration, document, API path, writer stack) group the fault-free output R is obtained, then every byte offset k in [0,len(R)] is used as the point where the writer starts to fail (short write + error; strided with all buffer boundaries kept when the group is not marked exhaustive), every sink call index j for zero+err and full+err, 'always', seeded transient plans, seeded flaky plans (a sequence of failing and succeeding calls) and short-write-without-error plans. A case is non-trivial when the fault actually fired (the sink returned its error or wrote short); distinct = distinct (group, plan) tuples by hash."
+		cov["rule"] = "fault_enumeration: for every (configuration, document, API path, writer stack) group the fault-free output R is obtained, then every byte offset k in [0,len(R)] is used as the point where the writer starts to fail (short write + error; strided with all buffer boundaries kept when the group is not marked exhaustive), every sink call index j for zero+err and full+err, 'always', seeded transient plans, seeded flaky plans (a sequence of failing and succeeding calls) and short-write-without-error plans. Sub-batches beyond the enumeration: a boundary sweep (a filler paragraph sized so that every byte of a template's rendering lands once on goldmark's 4096-byte buffer boundary, with the fault plans that matter there), seeded histories on one long-used instance in which half of the calls meet a failing destination (every faulted call judged by the same clauses), and seeded schedules of 2..8 goroutines on a shared instance with failing and healthy destinations side by side. A case is non-trivial when the fault actually fired (the sink returned its error or wrote short); distinct = distinct (group, plan) tuples by hash."
 		cov["exhaustive"] = false
 		cov["groups"] = st.Counters["groups"]
 		cov["groups_with_every_offset_enumerated"] = st.Counters["groups_exhaustive"]
